@@ -10,6 +10,7 @@ import TTModel.Guard
 import TTModel.Guard2
 import TTModel.Sweep
 import TTModel.Kernels
+import TTModel.KernelsDmrg
 import TTModel.Cross
 import TTModel.Manifold
 import TTModel.Decomp
@@ -91,6 +92,63 @@ def entries (c : Core S) : Array S := Id.run do
 
 /-- evaluate a core once into an array (cuts closure chains between operations) -/
 def freeze (c : Core S) : Core S := coreOfArray c.r0 c.m c.n c.r1 (entries c)
+
+/-- a 3-index environment stored as an array (strict value: cuts closure chains between the steps of a fold) -/
+def phiArr (d0 d1 d2 : Nat) (P : Kern.Phi3 S) : Array S := Id.run do
+  let mut out : Array S := Array.mkEmpty (d0 * d1 * d2)
+  for a in [0:d0] do
+    for b in [0:d1] do
+      for c in [0:d2] do
+        out := out.push (P a b c)
+  pure out
+
+def phiOfArr (d0 d1 d2 : Nat) (arr : Array S) : Kern.Phi3 S :=
+  fun a b c => if a < d0 ∧ b < d1 ∧ c < d2 then arr.getD ((a * d1 + b) * d2 + c) 0 else 0
+
+/-- `Kern.foldFwdA` with the running environment materialised after every core (same value on in-range indices) -/
+def foldFwdFrozen : List (Core S) → List (Core S) → List (Core S) → (Nat × Nat × Nat) × Array S → (Nat × Nat × Nat) × Array S
+  | x :: xs, A :: As, y :: ys, ((d0, d1, d2), arr) =>
+    let nxt := phiArr x.r1 A.r1 y.r1 (Kern.phiFwdA (phiOfArr d0 d1 d2 arr) x A y)
+    foldFwdFrozen xs As ys ((x.r1, A.r1, y.r1), nxt)
+  | _, _, _, st => st
+
+def foldBckFrozen : List (Core S) → List (Core S) → List (Core S) → (Nat × Nat × Nat) × Array S → (Nat × Nat × Nat) × Array S
+  | x :: xs, A :: As, y :: ys, st =>
+    let ((d0, d1, d2), arr) := foldBckFrozen xs As ys st
+    ((x.r0, A.r0, y.r0), phiArr x.r0 A.r0 y.r0 (Kern.phiBckA (phiOfArr d0 d1 d2 arr) x A y))
+  | _, _, _, st => st
+
+def foldFwdABFrozen : List (Core S) → List (Core S) → List (Core S) → (Nat × Nat × Nat) × Array S → (Nat × Nat × Nat) × Array S
+  | A :: As, B :: Bs, X :: Xs, ((d0, d1, d2), arr) =>
+    foldFwdABFrozen As Bs Xs ((X.r1, A.r1, B.r1), phiArr X.r1 A.r1 B.r1 (Kern.phiFwdAB (phiOfArr d0 d1 d2 arr) A B X))
+  | _, _, _, st => st
+
+def foldBckABFrozen : List (Core S) → List (Core S) → List (Core S) → (Nat × Nat × Nat) × Array S → (Nat × Nat × Nat) × Array S
+  | A :: As, B :: Bs, X :: Xs, st =>
+    let ((d0, d1, d2), arr) := foldBckABFrozen As Bs Xs st
+    ((X.r0, A.r0, B.r0), phiArr X.r0 A.r0 B.r0 (Kern.phiBckAB (phiOfArr d0 d1 d2 arr) A B X))
+  | _, _, _, st => st
+
+def phi2Arr (d0 d1 : Nat) (P : Kern.Phi2 S) : Array S := Id.run do
+  let mut out : Array S := Array.mkEmpty (d0 * d1)
+  for a in [0:d0] do
+    for b in [0:d1] do
+      out := out.push (P a b)
+  pure out
+
+def phi2OfArr (d0 d1 : Nat) (arr : Array S) : Kern.Phi2 S :=
+  fun a b => if a < d0 ∧ b < d1 then arr.getD (a * d1 + b) 0 else 0
+
+def foldFwdRhsFrozen : List (Core S) → List (Core S) → (Nat × Nat) × Array S → (Nat × Nat) × Array S
+  | b :: bs, x :: xs, ((d0, d1), arr) =>
+    foldFwdRhsFrozen bs xs ((b.r1, x.r1), phi2Arr b.r1 x.r1 (Kern.phiFwdRhs (phi2OfArr d0 d1 arr) b x))
+  | _, _, st => st
+
+def foldBckRhsFrozen : List (Core S) → List (Core S) → (Nat × Nat) × Array S → (Nat × Nat) × Array S
+  | b :: bs, x :: xs, st =>
+    let ((d0, d1), arr) := foldBckRhsFrozen bs xs st
+    ((b.r0, x.r0), phi2Arr b.r0 x.r0 (Kern.phiBckRhs (phi2OfArr d0 d1 arr) b x))
+  | _, _, st => st
 
 def showCore (c : Core S) : String :=
   let es := (entries c).foldl (fun acc e => acc ++ " " ++ toString e) ""
@@ -285,6 +343,48 @@ def run : PM String := do
       let (_, P) ← dense; let x ← core; let A ← core; let y ← core
       let r := Kern.phiBckA (fun a b c => P [a,b,c]) x A y
       pure (showDense [x.r0, A.r0, y.r0] (fun i => r (i.getD 0 0) (i.getD 1 0) (i.getD 2 0)))
+  | "foldA" => do
+      -- environments of ⟨x, A y⟩ over whole (sub)trains: `foldA fwd|bck plain|conj|hconj <x> <A> <y>`
+      let dir ← next; let kind ← next
+      let (_, xs) ← tt; let (_, As0) ← tt; let (_, ys0) ← tt
+      let As1 := if kind == "hconj" then As0.map Kern.diagCore else As0
+      let As := if kind == "plain" then As1 else As1.map (Core.mapVal GRat.conj)
+      let ys := if kind == "plain" then ys0 else ys0.map (Core.mapVal GRat.conj)
+      let one : (Nat × Nat × Nat) × Array S := ((1, 1, 1), #[1])
+      let ((d0, d1, d2), arr) := if dir == "fwd" then foldFwdFrozen xs As ys one else foldBckFrozen xs As ys one
+      let r := phiOfArr d0 d1 d2 arr
+      pure (showDense [d0, d1, d2] (fun i => r (i.getD 0 0) (i.getD 1 0) (i.getD 2 0)))
+  | "foldAB" => do
+      let dir ← next
+      let (_, As) ← tt; let (_, Bs) ← tt; let (_, Xs) ← tt
+      let one : (Nat × Nat × Nat) × Array S := ((1, 1, 1), #[1])
+      let ((d0, d1, d2), arr) := if dir == "fwd" then foldFwdABFrozen As Bs Xs one else foldBckABFrozen As Bs Xs one
+      let r := phiOfArr d0 d1 d2 arr
+      pure (showDense [d0, d1, d2] (fun i => r (i.getD 0 0) (i.getD 1 0) (i.getD 2 0)))
+  | "foldRhs" => do
+      let dir ← next
+      let (_, bs) ← tt; let (_, xs) ← tt
+      let one : (Nat × Nat) × Array S := ((1, 1), #[1])
+      let ((d0, d1), arr) := if dir == "fwd" then foldFwdRhsFrozen bs xs one else foldBckRhsFrozen bs xs one
+      let r := phi2OfArr d0 d1 arr
+      pure (showDense [d0, d1] (fun i => r (i.getD 0 0) (i.getD 1 0)))
+  | "dmrgbck" => do
+      let kind ← next; let (_, P) ← dense; let y ← core; let A0 ← core; let x ← core
+      let A := if kind == "h" then Kern.diagCore A0 else A0
+      let r := Kern.dmrgPhiBck GRat.conj (fun a b c => P [a,b,c]) y A x
+      pure (showDense [y.r0, A.r0, x.r0] (fun i => r (i.getD 0 0) (i.getD 1 0) (i.getD 2 0)))
+  | "dmrgfwd" => do
+      let kind ← next; let (_, P) ← dense; let y ← core; let A0 ← core; let x ← core
+      let A := if kind == "h" then Kern.diagCore A0 else A0
+      let r := Kern.dmrgPhiFwd GRat.conj (fun a b c => P [a,b,c]) y A x
+      pure (showDense [y.r1, A.r1, x.r1] (fun i => r (i.getD 0 0) (i.getD 1 0) (i.getD 2 0)))
+  | "dmrgsuper" => do
+      let kind ← next; let (dl, PL) ← dense; let (dr, PR) ← dense
+      let A1' ← core; let x1 ← core; let A2' ← core; let x2 ← core
+      let A1 := if kind == "h" then Kern.diagCore A1' else A1'
+      let A2 := if kind == "h" then Kern.diagCore A2' else A2'
+      let r := Kern.dmrgSuper GRat.conj (fun a b c => PL [a,b,c]) (fun a b c => PR [a,b,c]) A1 x1 A2 x2
+      pure (showDense [dl.getD 0 0, A1.m, A2.m, dr.getD 0 0] (fun i => r (i.getD 0 0) (i.getD 1 0) (i.getD 2 0) (i.getD 3 0)))
   | "phifwdrhs" => do
       let (_, P) ← dense; let b ← core; let x ← core
       let r := Kern.phiFwdRhs (fun a c => P [a,c]) b x
